@@ -53,6 +53,13 @@ def sources(tier, seed, ctx):
         if r.random() < 0.2:
             acts.append({'a': 'copy'})
             acts.append({'a': 'into_bench'})
+        elif ni >= 2 and r.random() < 0.25:
+            # converted, then an input is fixed to a constant (a new out-of-basis gate appears), then converted again
+            fixed = labels[r.randrange(ni)]
+            acts.append({'a': 'replace_inputs', 'T': [fixed] if r.random() < 0.5 else [], 'F': []})
+            if not acts[-1]['T']:
+                acts[-1]['F'] = [fixed]
+            acts.append({'a': 'into_bench'})
         srcs.append({'k': 'hist', 'init': init, 'acts': acts, 'from': 'universe'})
         if n % 10 == 0:
             srcs.append({'k': 'graphviz', 'init': init, 'from': 'graphviz'})
